@@ -346,10 +346,10 @@ func main() {
 		return
 	}
 	var cases []Case
-	for i := 0; i < r.Pick(40, 400); i++ {
+	for i := 0; i < r.Pick(120, 1200); i++ {
 		cases = append(cases, Case{Kind: "law", Stream: fmt.Sprintf("c03/law/%d", i)})
 	}
-	for i := 0; i < r.Pick(60, 1200); i++ {
+	for i := 0; i < r.Pick(200, 4000); i++ {
 		cases = append(cases, Case{Kind: "single", Stream: fmt.Sprintf("c03/single/%d", i)})
 	}
 	sizes := []int{0, 1, 2, 3, 8, 93, 94, 95, 189, 190, 191}
@@ -357,7 +357,7 @@ func main() {
 	if !r.Quick {
 		big1 = []int{499, 500, 501, 799, 800, 801, 1000}
 	}
-	for rep := 0; rep < r.Pick(2, 12); rep++ {
+	for rep := 0; rep < r.Pick(3, 20); rep++ {
 		for _, s := range sizes {
 			cases = append(cases, Case{Kind: "msm", Stream: fmt.Sprintf("c03/msm/%d/%d", s, rep), Size: s})
 		}
@@ -367,7 +367,7 @@ func main() {
 			cases = append(cases, Case{Kind: "msm", Stream: fmt.Sprintf("c03/msm/%d/%d", s, rep), Size: s})
 		}
 	}
-	for i := 0; i < r.Pick(20, 300); i++ {
+	for i := 0; i < r.Pick(60, 800); i++ {
 		cases = append(cases, Case{Kind: "msm-unknown", Stream: fmt.Sprintf("c03/msmu/%d", i), Size: 1 + i%8})
 	}
 	r.Parallel(len(cases), func(i int) { runCase(r, cases[i], pool) })
